@@ -319,3 +319,46 @@ Example C01_history_with_edits :
   /\ map (fun o => map ev_oid (o_events o)) (snd (run_steps src_cfg root [] steps))
      = [ [1; 2; 3; 4]; [5]; [5; 6; 3; 4; 7]; [5; 6; 4; 7] ].
 Proof. vm_compute. split; reflexivity. Qed.
+
+(* 14. children that enter the tree as COPIES of a built pipeline object (copy constructor, the by-value helper
+   operator<<(Logger *, const Pipeline &), copy assignment): how a pipeline object was made is no part of the tree.
+   The scenario language tags such children; the model evaluates [forget_l] of the scenario, so a scenario with copies
+   denotes what the same scenario with plainly made children ([refresh]) denotes - for one message and for every
+   history of messages and edits - and a scoped COPY restores like any scoped child, an unscoped one is inline *)
+Theorem C01_copy_behaves_as_original : forall bs st m,
+  run src_cfg (forget_l bs) st m = run src_cfg (forget_l (map refresh bs)) st m.
+Proof. exact (copy_is_original src_cfg). Qed.
+Print Assumptions C01_copy_behaves_as_original.
+
+Theorem C01_copy_behaves_as_original_history : forall bs st steps,
+  run_steps src_cfg (forget_l bs) st steps = run_steps src_cfg (forget_l (map refresh bs)) st steps.
+Proof. exact (copy_is_original_steps src_cfg). Qed.
+Print Assumptions C01_copy_behaves_as_original_history.
+
+Theorem C01_scoped_copy_restores : forall how hs st m,
+  let m' := res_msg (exec src_cfg (forget (BPipe how true hs)) st m) in
+  fmt m' = fmt m /\ mattrs m' = mattrs m /\ text m' = text m /\ mt m' = mt m.
+Proof. exact (fun how hs => scoped_restores src_cfg C01_source_configuration_good (map forget hs)). Qed.
+Print Assumptions C01_scoped_copy_restores.
+
+Theorem C01_copied_child_nesting : forall how sc hs rest st m,
+  run src_cfg (forget_l (BPipe how sc hs :: rest)) st m =
+    let '(st1, m1, _, e1) := run src_cfg (forget_l hs) st m in
+    let handed_on := if sc then set_at (set_fmt m1 (fmt m)) (mattrs m) else m1 in
+    let '(st2, m2, k2, e2) := run src_cfg (forget_l rest) st1 handed_on in (st2, m2, k2, e1 ++ e2).
+Proof. exact (fun how sc hs rest => nesting_equation src_cfg C01_source_configuration_good sc (forget_l hs) (forget_l rest)). Qed.
+Print Assumptions C01_copied_child_nesting.
+
+(* non-vacuity: a scoped child made through the by-value helper, holding a formatter, an attribute handler and a sink,
+   followed by an outer sink (the shape of the library's `&logger << pipeline` idiom): the outer sink gets the raw,
+   unformatted message without the attribute; the scenario does contain copies *)
+Example C01_scoped_copy_hides_its_effects :
+  let k := [97%N] in
+  let sc := [ BPipe BCopyHelper true [ BLeaf 1 (LFmtTag [84%N]); BLeaf 2 (LAttrSet k (VInt 1)); BLeaf 3 LSink ];
+              BPipe BCopyAssign false [ BLeaf 4 (LAttrSet k (VInt 2)) ]; BLeaf 5 LSink ] in
+  let m := {| mt := Info; text := [104%N]; fmt := None; mattrs := [] |} in
+  fold_right (fun x n => copies x + n) 0 sc = 2
+  /\ map (fun e => match e with EDeliver o _ c => (o, c_formatted c, lookup k (c_attrs c)) | EExec o _ => (o, false, None) end)
+         (res_events (run src_cfg (forget_l sc) [] m))
+     = [ (1, false, None); (2, false, None); (3, true, Some (VInt 1)); (4, false, None); (5, false, Some (VInt 2)) ].
+Proof. vm_compute. split; reflexivity. Qed.
